@@ -101,7 +101,7 @@ def run(ctx):
     if K.build_hx(ctx) and K.build_drv(ctx):
         args = S.drv_args(facts)
         try:
-            c = K.correspondence(ctx, "C04", args, hx_env={"HX_C04_SIDE": side_path}, timeout=900)
+            c = K.correspondence(ctx, "C04", args, hx_env={"HX_C04_SIDE": side_path}, timeout=3000)
         except Exception as e:  # a hung generator/run is a finding about the code, not a machinery error
             c = K.Corr()
             c.err = "harness did not finish: %r" % (e,)
@@ -149,7 +149,7 @@ def run(ctx):
         else:
             ctx.violation("implementation violates the property: " + what, rep, tag=sig or "impl")
     if ctx.thorough:
-        ok, out = K.leanchecker(ctx, ["Hv.Props.C04", "Hv.Storage.CorruptLemmas"])
+        ok, out = K.leanchecker(ctx, ["Hv.Props.C04", "Hv.Storage.CorruptLemmas", "Hv.Storage.TornLemmas", "Hv.Storage.ReaderLemmas", "Hv.Storage.FormatLemmas"])
         ctx.cov["leanchecker"] = "ok" if ok else out[-500:]
         if not ok:
             ctx.violation("leanchecker rejected the compiled proofs", {"log": out[-2000:]}, tag="leanchecker", found_input=False)
